@@ -7,6 +7,7 @@ os.makedirs("/verif/.work", exist_ok=True)
 t0 = time.time()
 env = dict(os.environ, PYTHONPATH=tree)
 env.pop("FLOX_VERIF", None)
+env.update(OMP_NUM_THREADS="1", OPENBLAS_NUM_THREADS="1", MKL_NUM_THREADS="1", NUMBA_NUM_THREADS="2")
 subprocess.run(["/venv/bin/python", "-m", "pytest", "-q", "-p", "no:cacheprovider", "-n", sys.argv[2] if len(sys.argv) > 2 else "10",
                 "--timeout=900", "--continue-on-collection-errors", f"--junitxml={out}"], cwd=tree, env=env,
                stdout=subprocess.DEVNULL, stderr=subprocess.DEVNULL)
